@@ -38,7 +38,10 @@ func init() {
 		var jobs []*Job
 		kinds := []string{"expired-observed", "expired-resurrected"}
 		_ = kinds
-		for _, cfg := range featureCfgs(true) {
+		cfgs03 := featureCfgs(true)
+		// clock values beyond 2^62 (deadline arithmetic close to the saturation point) with an ordinary TTL
+		cfgs03 = append(cfgs03, CacheCfg{Expiry: "writing", TTL: 100, ClockStart: 1 << 62}, CacheCfg{MaxSize: 2, Expiry: "accessing", TTL: 100, ClockStart: 1<<62 + 1<<61})
+		for _, cfg := range cfgs03 {
 			if cfg.Expiry == "" {
 				continue
 			}
@@ -122,6 +125,12 @@ func init() {
 					depth, budget = 5, 600
 				}
 				jobs = append(jobs, seqJob(seqParams{Cfg: cfg, Alphabet: a, Kinds: kinds}, depth, 4, budget))
+				if cfg.MaxWeight == 4 && cfg.Expiry == "" {
+					// small-scope transfer threshold (2 instead of 1000): loops bounded by it give up within reach
+					j := seqJob(seqParams{Label: "small-transfer-threshold", Cfg: cfg, Alphabet: a, Kinds: kinds}, depth, 4, budget)
+					j.Variant = "small"
+					jobs = append(jobs, j)
+				}
 				// non-initial states: entries spread over the policy's queues (a zero-weight entry that reached the
 				// main space by being re-weighed, promoted entries, entries still in the window)
 				if cfg.MaxWeight > 0 {
@@ -237,7 +246,8 @@ func init() {
 	// ---- C12: deadlines computed exactly and without overflow ----
 	plans["C12"] = func(thorough bool) []*Job {
 		var jobs []*Job
-		kinds := []string{"deadline-mismatch", "deadline-wrapped", "refresh-deadline-mismatch", "invisible-before-deadline", "visible-at-deadline", "missing-entry", "hook-mismatch"}
+		// untruthful-expiration: an entry removed as expired before its deadline is not "visible exactly while the clock is before its expiration time"
+		kinds := []string{"deadline-mismatch", "deadline-wrapped", "refresh-deadline-mismatch", "invisible-before-deadline", "visible-at-deadline", "missing-entry", "hook-mismatch", "untruthful-expiration"}
 		origins := []int64{0, 1, 1<<40 + 12345, 1_700_000_000_000_000_000, 1 << 62}
 		for _, origin := range origins {
 			durs := []int64{1, 2, 1 << 30, math.MaxInt64 - origin - 1, math.MaxInt64 - origin, math.MaxInt64/2 + 1, math.MaxInt64}
